@@ -890,3 +890,148 @@ Proof.
     vm_compute in H. discriminate H.
   - vm_compute. intros [H _]. specialize (H eq_refl). discriminate H.
 Qed.
+
+(* ------------------------------------------------------------------------------------------------ *)
+(* 8. the repaired reading discipline: the round trip holds WITHOUT the over-read side condition      *)
+(* ------------------------------------------------------------------------------------------------ *)
+Lemma par_roundtrip_fixed k r0 r pre post :
+  par_ok k r0 r ->
+  decode_par_fixed (pre ++ snd (encode_par k (N.of_nat (length pre)) r) ++ post) r0
+                   (fst (encode_par k (N.of_nat (length pre)) r)) = r.
+Proof.
+  intros Hok. destruct r as [nm ds df vl cl]. unfold par_ok in Hok. cbn [pr_def pr_val] in *.
+  destruct k.
+  - destruct Hok.
+  - destruct Hok as [[d Hd] [v Hv]]. subst. reflexivity.
+  - destruct Hok as (Hd & H0 & Hv). unfold encode_par, decode_par_fixed. cbn [pr_val pr_name pr_desc pr_cli pr_def].
+    destruct Hv as [Hv|[b Hv]]; subst vl.
+    + cbn. rewrite H0, Hd. reflexivity.
+    + cbn [fst snd s_name s_desc s_def s_cur s_cli decode_field_fixed]. unfold read_view_fixed.
+      rewrite !Nat2N.id, skipn_app_exact, firstn_app_exact, Hd. reflexivity.
+  - destruct Hok as (Hd & H0 & Hv). unfold encode_par, decode_par_fixed. cbn [pr_val pr_name pr_desc pr_cli pr_def].
+    destruct Hv as [Hv|[b Hv]]; subst vl.
+    + cbn. rewrite H0, Hd. reflexivity.
+    + cbn [fst snd s_name s_desc s_def s_cur s_cli decode_field_fixed]. unfold read_view_fixed.
+      rewrite !Nat2N.id, skipn_app_exact, firstn_app_exact, Hd. reflexivity.
+Qed.
+
+Lemma node_roundtrip_fixed T tl pre post e :
+  table_ok T -> node_ok T tl (snd e) ->
+  decode_node_fixed T tl (pre ++ snd (encode_node dep_less T (N.of_nat (length pre)) e) ++ post)
+                    (fst (encode_node dep_less T (N.of_nat (length pre)) e)) = Some e.
+Proof.
+  intros HT (t & Ht & Hshape & Hsrc & Hpar). destruct e as [i [k ins par]]. cbn [snd fst n_ty n_in n_par] in *.
+  destruct (table_ok_nth T k t HT Ht) as (Hnd & Hpn & _).
+  assert (Hdeps : fold_opt (dstep T tl (t_ports t)) (sort_deps dep_less (enum_deps (t_ports t) ins))
+                           (map (fun _ => []) (t_ports t)) = Some ins) by (apply deps_roundtrip; auto).
+  unfold encode_node. cbn [snd fst n_ty n_in n_par]. unfold ports_of, kind_of. rewrite Ht.
+  destruct par as [r|]; destruct (t_def t) as [r0|] eqn:Ed; try contradiction.
+  - pose proof (par_roundtrip_fixed (t_kind t) r0 r pre post Hpar) as Hr.
+    destruct (encode_par (t_kind t) (N.of_nat (length pre)) r) as [d p] eqn:Ep. cbn [fst snd] in *.
+    unfold decode_node_fixed. cbn [s_ty s_deps s_data s_id]. rewrite Ht. cbn [bind]. cbn [fresh n_in].
+    change (fun (ins0 : list (list id)) (d0 : sdep) =>
+              if String.eqb (d_port d0) "Out" then set_input T tl (t_ports t) ins0 (d_name d0) (d_src d0) else None)
+      with (dstep T tl (t_ports t)).
+    rewrite Hdeps. cbn [bind]. rewrite Ed. cbn [bind]. rewrite Hr. reflexivity.
+  - cbn [fst snd app]. unfold decode_node_fixed. cbn [s_ty s_deps s_data s_id]. rewrite Ht. cbn [bind]. cbn [fresh n_in].
+    change (fun (ins0 : list (list id)) (d0 : sdep) =>
+              if String.eqb (d_port d0) "Out" then set_input T tl (t_ports t) ins0 (d_name d0) (d_src d0) else None)
+      with (dstep T tl (t_ports t)).
+    rewrite Hdeps. cbn [bind]. rewrite Ed. reflexivity.
+Qed.
+
+Lemma nodes_roundtrip_fixed T tl : table_ok T -> forall l pre,
+  Forall (fun e => node_ok T tl (snd e)) l ->
+  map_opt (decode_node_fixed T tl (pre ++ snd (encode_nodes dep_less T (N.of_nat (length pre)) l)))
+          (fst (encode_nodes dep_less T (N.of_nat (length pre)) l)) = Some l.
+Proof.
+  intros HT. induction l as [|e l IH]; intros pre Hok; [reflexivity|].
+  inversion Hok as [|? ? He Hl]; subst.
+  cbn [encode_nodes].
+  pose proof (node_roundtrip_fixed T tl pre (buffer_of T l) e HT He) as Hnode.
+  destruct (encode_node dep_less T (N.of_nat (length pre)) e) as [sn p] eqn:E1. cbn [fst snd] in Hnode.
+  replace (N.of_nat (length pre) + N.of_nat (length p)) with (N.of_nat (length (pre ++ p)))
+    by (rewrite app_length; lia).
+  specialize (IH (pre ++ p) Hl).
+  pose proof (encode_nodes_snd dep_less T l (N.of_nat (length (pre ++ p)))) as Hb.
+  destruct (encode_nodes dep_less T (N.of_nat (length (pre ++ p))) l) as [sns b] eqn:E2. cbn [fst snd] in *.
+  subst b. cbn [map_opt]. rewrite Hnode. rewrite <- app_assoc in IH. rewrite IH. reflexivity.
+Qed.
+
+Theorem reload_valid_fixed T s :
+  table_ok T -> valid T s -> decode_fixed T (encode T s) = Some s.
+Proof.
+  intros HT [Hn Hp]. unfold encode, encode_with.
+  pose proof (nodes_roundtrip_fixed T (tys s) HT (i_nodes s) [] Hn) as Hr. cbn [length app] in Hr.
+  change (N.of_nat 0) with 0 in Hr.
+  pose proof (encode_nodes_tys dep_less T (i_nodes s) 0) as Ht.
+  destruct (encode_nodes dep_less T 0 (i_nodes s)) as [sns buf]. cbn [fst snd] in *.
+  unfold decode_fixed. cbn [s_nodes s_buf s_prods s_meta]. rewrite Ht. fold (tys s). rewrite Hr. cbn [bind].
+  assert (Hf : forallb (fun '(_, i, p) => String.eqb p "Out" && is_artifact T (tys s) i)
+                       (map (fun e : string * id => (fst e, snd e, "Out"%string)) (i_prods s)) = true).
+  { apply forallb_forall. intros x Hx. apply in_map_iff in Hx. destruct Hx as (e & <- & He).
+    eapply Forall_forall in Hp; [|exact He]. cbn. exact Hp. }
+  rewrite Hf. rewrite map_map.
+  assert (Hm : map (fun x : string * id => (fst x, snd x)) (i_prods s) = i_prods s).
+  { clear. induction (i_prods s) as [|[a b] l IH]; cbn; [reflexivity|]. rewrite IH. reflexivity. }
+  cbn. rewrite Hm. destruct s; reflexivity.
+Qed.
+
+(* after ANY edit history, no side condition *)
+Theorem reload_same_fixed T h : table_ok T -> decode_fixed T (encode T (run T h)) = Some (run T h).
+Proof. intros HT. apply reload_valid_fixed; auto. apply run_valid, HT. Qed.
+
+(* the faithful and the repaired reader agree wherever the faithful one does not over-read *)
+Theorem reload_fixed_agrees T h :
+  table_ok T -> no_overread T (i_nodes (run T h)) ->
+  decode T (encode T (run T h)) = decode_fixed T (encode T (run T h)).
+Proof. intros HT Hno. rewrite reload_same, reload_same_fixed; auto. Qed.
+
+(* ------------------------------------------------------------------------------------------------ *)
+(* 9. life after the reload: the reloaded graph carries on exactly as the saved one                  *)
+(* ------------------------------------------------------------------------------------------------ *)
+Definition ids_of (s : inst) : list id := map fst (i_nodes s).
+
+(* every continuation c — same resulting graph, same success flag of every operation *)
+Theorem continuation_same T h c s' :
+  table_ok T -> no_overread T (i_nodes (run T h)) ->
+  decode T (encode T (run T h)) = Some s' ->
+  run_from T s' c = run_from T (run T h) c.
+Proof. intros HT Hno H. rewrite reload_same in H by assumption. injection H as <-. reflexivity. Qed.
+
+Theorem continuation_same_fixed T h c s' :
+  table_ok T -> decode_fixed T (encode T (run T h)) = Some s' ->
+  run_from T s' c = run_from T (run T h) c.
+Proof. intros HT H. rewrite reload_same_fixed in H by assumption. injection H as <-. reflexivity. Qed.
+
+(* running on is running the concatenated history (so everything proved of [run] holds after a reload
+   followed by further edits: validity, the next round trip, ...) *)
+Lemma run_from_app T : forall a s b,
+  fst (run_from T s (a ++ b)) = fst (run_from T (fst (run_from T s a)) b).
+Proof.
+  induction a as [|o a IH]; intros s b; [reflexivity|].
+  cbn [app run_from]. destruct (step T s o) as [s1 ok] eqn:E.
+  specialize (IH s1 b). destruct (run_from T s1 (a ++ b)) as [s2 oks] eqn:E2.
+  destruct (run_from T s1 a) as [s3 oks3] eqn:E3. cbn [fst] in *. exact IH.
+Qed.
+
+Theorem reload_then_continue_then_reload T h c s' :
+  table_ok T -> decode_fixed T (encode T (run T h)) = Some s' ->
+  let s2 := fst (run_from T s' c) in
+  s2 = run T (h ++ c) /\ decode_fixed T (encode T s2) = Some s2.
+Proof.
+  intros HT H s2. subst s2. rewrite (continuation_same_fixed T h c s' HT H).
+  assert (E : fst (run_from T (run T h) c) = run T (h ++ c)).
+  { unfold run. rewrite run_from_app. reflexivity. }
+  rewrite E. split; [reflexivity|]. apply reload_same_fixed, HT.
+Qed.
+
+(* C12-F's class: the id handed out by the first CreateNode after a reload is not in use in the reloaded graph
+   (and is the id the saved graph itself would hand out) *)
+Theorem new_id_after_reload_is_fresh T h s' :
+  table_ok T -> decode_fixed T (encode T (run T h)) = Some s' ->
+  ~ In (alloc (ids_of s')) (ids_of s') /\ alloc (ids_of s') = alloc (ids_of (run T h)).
+Proof.
+  intros HT H. rewrite reload_same_fixed in H by assumption. injection H as <-.
+  split; [apply alloc_fresh | reflexivity].
+Qed.
